@@ -37,10 +37,10 @@ P = {
          "Every field of a mutex-bearing shared type that a handler writes is accessed under that mutex; no unsynchronised write to non-fresh shared state in handler scope; each badger method is exactly one transaction; no in-place big.Int mutation of shared snapshots; no blocking call under a lock.",
          "Does not decide serialisability of multi-call operations or run-time transaction conflicts.", "§2 C10"),
  "C11": ("provenance, canonical-predicate and sibling-agreement rules over SSA",
-         "Both drivers track only known peers with the peer's own LastSeen, evict canonically timestamp <= now-ExpireInterval with deleted <=> reported, persist in the same region; Update wires InvalidPeers/ActivePeers from the right store results.",
+         "Both drivers track only known peers with the peer's own LastSeen, evict canonically timestamp <= now-ExpireInterval with deleted <=> reported, persist in the same region, look every reported peer up and rewrite every found peer's entry (refresh), run the expiry sweep on every accepted keep-alive; Update wires InvalidPeers/ActivePeers from the right store results.",
          "Does not decide the history-level 'exactly if' statement.", "§2 C11"),
  "C12": ("sibling cross-check of per-method effect summaries computed from SSA",
-         "For each Store method both drivers have equal write/delete sets over the abstract key spaces, equal assigned fields and equal sentinel errors; gob decode targets are fresh.",
+         "For each Store method both drivers have equal write/delete sets over the abstract key spaces, equal assigned fields and equal sentinel errors; gob decode targets are fresh (also through decode helpers; loopItem resets its target); where badger answers a miss with a sentinel the memory driver's lookup is comma-ok; both drivers run the expiry sweep on every successful UpdateNodePeers.",
          "Does not decide value-level equality on arbitrary operation sequences.", "§2 C12"),
  "C13": ("transaction-region, error-propagation and API-contract (key lifetime) rules over SSA",
          "Every badger method is one transaction, every write error inside a transaction reaches the closure's result, no Item.Key() slice is retained by a write, no transaction is nested in another, migrations run in one transaction, bump the version and touch only non-ledger prefixes (also inside helpers), and the pool binary backs every service with the one selected store.",
@@ -58,7 +58,7 @@ P = {
          "A stream codec keeps its decoder (or its buffered remainder) across reads; the shipped gorilla codec serialises writes and reads under its mutexes; the binaries import only that codec; the framed gobwas codec discards the unread remainder before the next frame and flushes every write; the HTTP stub is a plain POST the transport never replays.",
          "Does not decide exactly-once/in-order over arbitrary chunkings.", "§2 C17"),
  "C18": ("gate reachability over the call graph, pairing and provenance rules over SSA",
-         "Node mutators run only past a successful pool update; every invalid peer is both un-trusted and disconnected with the same id; strict mode keeps a local peer only on lookup-hit and equal host; the shortfall requested is NumHosts-len(ActivePeers) of the node's own kind; every returned host is dialled.",
+         "Node mutators run only past a successful pool update; every invalid peer is both un-trusted and disconnected with the same id; strict mode keeps a local peer only on lookup-hit and equal host; the shortfall requested is NumHosts-len(ActivePeers) of the node's own kind; every returned host is dialled; Parity's reserved-peer RPCs never receive the bare enode://id form.",
          "Does not decide multi-round convergence.", "§2 C18"),
  "C19": ("provenance and gate-reachability rules over SSA",
          "The advertised URL's user derives only from the verified node id, host:port is built with net.JoinHostPort, empty hosts are refused before construction, registration happens only past successful normalisation, defaults come from RemoteAddr and the constant 30303.",
